@@ -305,7 +305,7 @@ def exppp(repo):
             raise ValueError("EXPRlength: sized-buffer form not recognised")
         bd = _body(p, r"static\s+size_t\s+EXPRstring_bound\s*\(\s*Expression\s+e\s*\)\s*\{", "EXPRstring_bound")
         base = re.search(r"size_t\s+n\s*=\s*(\d+)\s*;", bd)
-        per = sorted(set(int(x) for x in re.findall(r"n\s*\+=\s*(\d+)\s*\+\s*EXPRstring_bound\s*\(\s*arg\s*\)", bd)))
+        per = sorted(set(int(x) for x in re.findall(r"n\s*\+=\s*(\d+)\s*\+\s*EXPRstring_bound\s*\(\s*arg\b", bd)))
         if not base or len(per) != 1:
             raise ValueError("EXPRstring_bound: constants not recognised")
         # every symbol EXPRstring prints must be counted by the bound function
@@ -319,6 +319,47 @@ def exppp(repo):
         if not kf:
             raise ValueError("EXPRstring_bound: how a string literal is counted is not recognised")
         elen = (acap, ".sized", int(base.group(1)), per[0], int(need.group(1)), int(kf.group(1) or 1))
+    # node kind by node kind: the sub-expressions EXPRstring descends into vs the ones EXPRstring_bound counts
+    es_ = _body(p, r"\bvoid\s+EXPRstring\s*\(\s*char\s*\*\s*buffer\s*,\s*Expression\s+e\s*\)\s*\{", "EXPRstring")
+    child_mismatch, repeat_counted = [], True
+    if elen[1] == ".sized":
+        def cases(body):
+            """case labels -> text of the block they lead to (up to the `break;` at nesting depth 0 of the block)"""
+            out = {}
+            parts = re.split(r"(\bcase\s+\w+\s*:|\bdefault\s*:)", body)
+            labels = []
+            for i in range(1, len(parts), 2):
+                lab = parts[i].replace("case", "").replace(":", "").strip()
+                txt = parts[i + 1]
+                labels.append(lab)
+                if txt.strip():
+                    for l in labels:
+                        out[l] = txt
+                    labels = []
+            return out
+
+        def norm(x, blk):
+            x = re.sub(r"\s+", "", x)
+            for nm, val in re.findall(r"\bbool\s+(\w+)\s*=\s*([^;]+);", blk):
+                x = re.sub(r"\b" + nm + r"\b", re.sub(r"\s+", "", val), x)
+            return x
+        wc, bc = cases(es_), cases(bd)
+        # nested switch in the logical_ case: labels Ltrue/Lfalse are not expression kinds
+        for kind, blk in wc.items():
+            if not kind.endswith("_"):
+                continue
+            written = [norm(x, blk) for x in re.findall(r"EXPRstring\s*\(\s*buffer[^,]*,\s*([^;]+?)\s*\)\s*;", blk)]
+            if re.search(r"EXPRop_string\s*\(\s*buffer\s*,\s*&e->e\s*\)", blk):
+                written += ["e->e.op1", "e->e.op2"]
+            counted = [norm(x, bc.get(kind, "")) for x in re.findall(r"EXPRstring_bound\s*\(\s*((?:[^()]|\([^()]*\))+?)\s*\)", bc.get(kind, ""))]
+            for w_ in written:
+                if w_ not in counted:
+                    child_mismatch.append(f"{kind}: EXPRstring prints {w_}, EXPRstring_bound counts {counted}")
+        agg_w = [norm(x, wc.get("aggregate_", "")) for x in re.findall(r"EXPRstring\s*\(\s*buffer[^,]*,\s*([^;]+?)\s*\)\s*;", wc.get("aggregate_", ""))]
+        agg_b = [norm(x, bc.get("aggregate_", "")) for x in re.findall(r"EXPRstring_bound\s*\(\s*((?:[^()]|\([^()]*\))+?)\s*\)", bc.get("aggregate_", ""))]
+        if len(agg_w) != 1:
+            raise ValueError(f"EXPRstring: aggregate_ case not recognised {agg_w}")
+        repeat_counted = agg_w == agg_b
     # fixed text EXPRstring adds per node: sum of literal text outside LISTdo loops, max separator inside
     es = _body(p, r"\bvoid\s+EXPRstring\s*\(\s*char\s*\*\s*buffer\s*,\s*Expression\s+e\s*\)\s*\{", "EXPRstring")
     eo = _body(p, r"\bvoid\s+EXPRop_string\s*\([^)]*\)\s*\{", "EXPRop_string")
@@ -356,7 +397,8 @@ def exppp(repo):
         wfac = 1
     else:
         raise ValueError("EXPRstring: how a string literal is written is not recognised")
-    return dict(wrap=(wcap, wcall), raw=(rcap, rcall), line=line, elen=elen, fixed=fixed, sep=sep, wfac=wfac)
+    return dict(wrap=(wcap, wcall), raw=(rcap, rcall), line=line, elen=elen, fixed=fixed, sep=sep, wfac=wfac,
+                child_mismatch=child_mismatch, repeat_counted=repeat_counted)
 
 
 # ---------------------------------------------------------------- exp2cxx / exp2python name case functions
@@ -647,10 +689,16 @@ def scan_buffers(repo):
     cap = _define(h, "SCAN_NESTING_DEPTH", "lexact.h")
     if not re.search(r"Scan_Buffer\s+SCAN_buffers\s*\[\s*SCAN_NESTING_DEPTH\s*\]", t):
         raise ValueError("lexact.c: SCAN_buffers[SCAN_NESTING_DEPTH] not found")
+    inc = _body(t, r"void\s+SCANinclude_file\s*\(\s*char\s*\*\s*filename\s*\)\s*\{", "SCANinclude_file")
+    if not re.search(r"SCANpush_buffer\s*\(", t):
+        # INCLUDE reports "not read" and pushes nothing: the index is only ever decremented or reset
+        ups = re.findall(r"\+\+\s*SCAN_current_buffer|SCAN_current_buffer\s*\+\+|SCAN_current_buffer\s*\+=|SCAN_current_buffer\s*=\s*[^=0\s]", t)
+        if ups:
+            raise ValueError(f"lexact.c: SCAN_current_buffer is raised outside SCANpush_buffer: {ups[:2]}")
+        return cap, cap         # every push is refused: `SCAN_current_buffer + cap >= cap`
     pb = _body(t, r"static\s+void\s+SCANpush_buffer\s*\([^)]*\)\s*\{", "SCANpush_buffer")
     if not re.search(r"\+\+\s*SCAN_current_buffer\s*;", pb):
         raise ValueError("SCANpush_buffer: increment of SCAN_current_buffer not recognised")
-    inc = _body(t, r"void\s+SCANinclude_file\s*\(\s*char\s*\*\s*filename\s*\)\s*\{", "SCANinclude_file")
     push = inc.find("SCANpush_buffer(")
     g = re.search(r"if\s*\(\s*SCAN_current_buffer\s*\+\s*(\d+)\s*>=\s*SCAN_NESTING_DEPTH\s*\)\s*\{[^}]*ERRORreport_with_line\s*\(\s*INCLUDE_FILE[^}]*\}\s*else\b", inc, re.S)
     guard = int(g.group(1)) if (g and g.start() < push) else None
@@ -831,6 +879,40 @@ def graph_walks(repo):
     return out, sorted(bumpers)
 
 
+# ------------------------------------------------------------------ walks over lattices
+def dag_walks(repo):
+    """(function, expands every node once): a membership test on the list of expanded nodes that returns, and the insertion,
+    both before the recursion"""
+    out = []
+    t = _strip_comments(_read(repo, "src/express/entity.c"))
+    b = _functions(t).get("ENTITY_get_all_attributes", "")
+    g = re.search(r"LISTdo\s*\(\s*seen\s*,\s*(\w+)\s*,\s*Entity\s*\)\s*if\s*\(\s*\1\s*==\s*entity\s*\)\s*\{\s*return\s*;\s*\}\s*LISTod\s*;?\s*LISTadd_last\s*\(\s*seen\s*,\s*entity\s*\)\s*;", b)
+    rec = b.find("ENTITY_get_all_attributes(")
+    out.append(("ENTITY_get_all_attributes", bool(g and rec > g.end())))
+    t = _strip_comments(_read(repo, "src/exp2python/src/classes_python.c"))
+    b = _functions(t).get("ENTITYhas_ancestor_", "")
+    g = re.search(r"LISTdo\s*\(\s*seen\s*,\s*(\w+)\s*,\s*Entity\s*\)\s*\{\s*if\s*\(\s*\1\s*==\s*e\s*\)\s*\{\s*return\s+false\s*;\s*\}\s*\}\s*LISTod\s*;?\s*LISTadd_last\s*\(\s*seen\s*,\s*e\s*\)\s*;", b)
+    rec = b.find("ENTITYhas_ancestor_(")
+    plain = _functions(t).get("ENTITYhas_ancestor", "")
+    out.append(("ENTITYhas_ancestor", bool(g and rec > g.end() and "ENTITYhas_ancestor_(" in plain and "ENTITYhas_ancestor(" not in plain)))
+    t = _strip_comments(_read(repo, "src/exp2cxx/selects.c"))
+    b = _functions(t).get("non_unique_types_vector_", "")
+    g = re.search(r"for\s*\(\s*k\s*=\s*\*known\s*;\s*k\s*;\s*k\s*=\s*k->next\s*\)\s*\{\s*if\s*\(\s*k->type\s*==\s*type\s*\)\s*\{.*?return\s*;\s*\}\s*\}.*?\*known\s*=\s*k\s*;", b, re.S)
+    rec = b.find("non_unique_types_vector_(")
+    pub = _functions(t).get("non_unique_types_vector", "")
+    out.append(("non_unique_types_vector", bool(g and rec > g.end() and "non_unique_types_vector_(" in pub and not re.search(r"non_unique_types_vector\s*\(", pub))))
+    # exp2cxx complex entity support: node budget
+    budget = None
+    mc = _strip_comments(_read(repo, "src/exp2cxx/multlist.cc"))
+    hd = _strip_comments(_read(repo, "src/exp2cxx/complexSupport.h"))
+    m = re.search(r"#define\s+MAX_ENTLIST_NODES\s+(\d+)", mc)
+    cn = _functions(mc).get("countNode", "")
+    if (m and re.search(r"if\s*\(\s*\+\+nodes\s*>\s*MAX_ENTLIST_NODES\s*\)\s*\{[^}]*fprintf\s*\(\s*stderr[^}]*exit\s*\(\s*EXPRESS_fail", cn, re.S)
+            and re.search(r"EntList\s*\(\s*JoinType\s+j\s*\)\s*:[^{]*\{\s*countNode\s*\(\s*\)\s*;", hd)):
+        budget = int(m.group(1))
+    return out, budget
+
+
 # ------------------------------------------------------------------ exit-status discipline
 def _block_at(text, i):
     """(content, end) of the brace block that opens at or after position i"""
@@ -892,7 +974,7 @@ def _sev_branches(text, what):
 def _functions(text):
     """name -> body of every function defined in (comment-free) C text"""
     out = {}
-    for m in re.finditer(r"^(?:[A-Za-z_][\w \t\*]*?[ \t\*])?(\w+)\s*\(([^;{}()]|\([^;{}()]*\))*\)\s*\{", text, re.M):
+    for m in re.finditer(r"^(?:[A-Za-z_][\w \t\*:]*?[ \t\*:])?(\w+)\s*\(([^;{}()]|\([^;{}()]*\))*\)\s*\{", text, re.M):
         if m.group(1) in ("if", "while", "for", "switch"):
             continue
         try:
@@ -1092,6 +1174,7 @@ def extract(repo):
     sc_cap, sc_guard = scan_buffers(repo)
     walks, bumpers = graph_walks(repo)
     xd = exit_discipline(repo)
+    dwalks, node_budget = dag_walks(repo)
     oc_cap, oc_guarded = open_comments(repo)
     sf_cap, sf_name, sf_bounded, sf_ext, sf_dir = schema_files(repo)
     es_mul, es_add, es_per = escape_buffer(repo)
@@ -1145,9 +1228,11 @@ def extract(repo):
     el = x["elen"]
     A("/-- pretty_expr.c `EXPRlength`: buffer handed to `EXPRstring`, and the constants of `EXPRstring_bound` -/")
     if el[1] == ".fixed":
-        A(f"def exprLenCfg : ExprLenCfg := {{ cap := {el[0]}, sized := false, base := 0, perArg := 0, needExtra := 0, nameFactor := 1 }}")
+        A(f"def exprLenCfg : ExprLenCfg := {{ cap := {el[0]}, sized := false, base := 0, perArg := 0, needExtra := 0, nameFactor := 1, repeatCounted := true }}")
     else:
-        A(f"def exprLenCfg : ExprLenCfg := {{ cap := {el[0]}, sized := true, base := {el[2]}, perArg := {el[3]}, needExtra := {el[4]}, nameFactor := {el[5]} }}")
+        A(f"def exprLenCfg : ExprLenCfg := {{ cap := {el[0]}, sized := true, base := {el[2]}, perArg := {el[3]}, needExtra := {el[4]}, nameFactor := {el[5]}, repeatCounted := {str(x['repeat_counted']).lower()} }}")
+    A("/-- expression kinds for which EXPRstring descends into a sub-expression that EXPRstring_bound does not count (compared case by case) -/")
+    A("def exprChildMismatch : List String := [" + ", ".join('"' + m_.replace('"', "'") + '"' for m_ in x["child_mismatch"]) + "]")
     A("/-- most bytes `EXPRstring` writes for one character of a string literal (1: copied as is; 2: an apostrophe is doubled) -/")
     A(f"def exprNameWriteFactor : Nat := {x['wfac']}")
     A("/-- most fixed text (literals, a formatted number) `EXPRstring` adds for one node; longest list separator -/")
@@ -1203,6 +1288,10 @@ def extract(repo):
     A(f"def pyCallCfg : PyCallCfg := {{ initial := {py_init}, ensure := {_opt(py_ensure)}, sep := {py_sep}, close := {py_close} }}")
     A("/-- recursive walks over the USE graph: (function, marks the schema with the current search id before recursing and starts no other search meanwhile) -/")
     A("def graphWalks : List (String × Bool) := [" + ", ".join(f'("{f}", {str(ok).lower()})' for f, ok in walks) + "]")
+    A("/-- walks over lattices (supertypes, select members): (function, every node is expanded once) -/")
+    A("def dagWalks : List (String × Bool) := [" + ", ".join(f'("{f}", {str(ok).lower()})' for f, ok in dwalks) + "]")
+    A("/-- exp2cxx: MAX_ENTLIST_NODES, counted in the constructor of EntList, beyond it a diagnostic and exit( EXPRESS_fail ) -/")
+    A(f"def complexNodeBudget : Option Nat := {_opt(node_budget)}")
     A("/-- RENAMEresolve: in-progress mark before the search, cleared only after `failed` or the object is set -/")
     A(f"def renameResolveMarkFirst : Bool := {str(dict(walks)['RENAMEresolve']).lower()}")
     A("/-- functions of src/express that start a new search (increment `__SCOPE_search_id`) -/")
